@@ -26,6 +26,9 @@ Proof. intros s a s' H; inversion H. Qed.
 Lemma pres_get (P : session -> Prop) : preserves P get.
 Proof. intros s a s' H; inversion H; subst; auto. Qed.
 
+Lemma pres_gets {A} (P : session -> Prop) (f : session -> A) : preserves P (gets f).
+Proof. intros s a s' H; inversion H; subst; auto. Qed.
+
 Lemma pres_bind {A B} (P : session -> Prop) (m : M A) (f : A -> M B) :
   preserves P m -> (forall a, preserves P (f a)) -> preserves P (bind m f).
 Proof.
@@ -108,9 +111,9 @@ Proof.
     apply IH in H as [l' ->]. eexists. destruct s; reflexivity.
 Qed.
 
-Lemma log_only_lift {A} (f : session -> I A) : log_only (lift f).
+Lemma log_only_lift {A} (f : ienv -> I A) : log_only (lift f).
 Proof.
-  intros s a s' H. unfold lift in H. destruct (f s) as [[x msgs]| |]; try discriminate.
+  intros s a s' H. unfold lift in H. destruct (f (ienv_of s)) as [[x msgs]| |]; try discriminate.
   unfold bind in H. destruct (log_msgs msgs s) as [[u s1]| |] eqn:E; try discriminate.
   inversion H; subst. eapply log_only_log_msgs; eauto.
 Qed.
@@ -118,10 +121,10 @@ Qed.
 Lemma pres_log_only {A} (m : M A) : log_only m -> preserves P m.
 Proof. intros H s a s' E Hs. apply H in E as [l ->]. apply fo_log; auto. Qed.
 
-Lemma pres_lift {A} (f : session -> I A) : preserves P (lift f).
+Lemma pres_lift {A} (f : ienv -> I A) : preserves P (lift f).
 Proof. apply pres_log_only, log_only_lift. Qed.
 
-Lemma lift_mode {A} (f : session -> I A) s a s' :
+Lemma lift_mode {A} (f : ienv -> I A) s a s' :
   lift f s = Ok (a, s') -> s_mode s' = s_mode s /\ (P s -> P s').
 Proof.
   intros H. pose proof (log_only_lift f _ _ _ H) as [l ->]. split; [reflexivity|].
@@ -135,7 +138,7 @@ Create HintDb presdb.
 Ltac pres_step HP :=
   first
     [ solve [auto with presdb nocore]
-    | apply pres_ret | apply pres_raise | apply pres_fuel | apply pres_get
+    | apply pres_ret | apply pres_raise | apply pres_fuel | apply pres_get | apply pres_gets
     | apply (pres_lift _ HP) | apply (pres_log_msg _ HP) | apply (pres_log_msgs _ HP)
     | apply pres_bind; [| intro]
     | match goal with
